@@ -1256,8 +1256,9 @@ class ContactHandler(Messenger, dbus.service.Object):
         for (key, val) in self._sess_parameters.items():
             if val is None:
                 continue
-            if isinstance(val, int):
-                val = min(2 ** 31 - 1, val)
+            if isinstance(val, int) and not isinstance(val, bool):
+                # A plain int is guessed to be a 32-bit signed value
+                val = dbus.UInt64(val)
             elif isinstance(val, ipaddress._BaseAddress):
                 val = str(val)
             params[key] = val
